@@ -112,6 +112,14 @@ func plans(n int, fib bool, rich bool) []plan {
 					out = append(out, plan{batches: singles(v), violation: "duplicate-terminal", desc: "duplicate-terminal " + descBatches(singles(v))})
 					out = append(out, plan{batches: [][]item{v}, violation: "duplicate-terminal", desc: "duplicate-terminal " + descBatches([][]item{v})})
 				}
+				// a violation at the very end counts only when it shares the response with the results before it
+				// (one response is processed atomically with respect to the convergence check)
+				vend := append(append([]item{}, merged...), item{99, spb.AFTResult_FAILED})
+				out = append(out, plan{batches: [][]item{vend}, violation: "unknown-id", desc: "unknown-id " + descBatches([][]item{vend})})
+				if terminal(merged[k-1].st, fib) {
+					dend := append(append([]item{}, merged...), merged[k-1])
+					out = append(out, plan{batches: [][]item{dend}, violation: "duplicate-terminal", desc: "duplicate-terminal " + descBatches([][]item{dend})})
+				}
 				// stalled: the last item (a terminal) is never sent
 				if last := merged[k-1]; terminal(last.st, fib) {
 					out = append(out, plan{batches: singles(merged[:k-1]), stalled: last.id, desc: "stalled " + descBatches(singles(merged[:k-1]))})
